@@ -84,9 +84,10 @@ type pstate = {
   mutable last : obs;                   (* observation before the current step *)
   mutable tickrun : int;                (* number of consecutive tick steps *)
   mutable tickfails : (int * int) list; (* failing starts per adapter within that run *)
+  mutable wanted : (int * bool) list;   (* is the adapter supposed to be supervised: registered and not told "do not retry" *)
 }
 let empty_obs = { status = "ok"; calls = []; snd_ = []; rcv_ = []; dump = [] }
-let new_pstate () = { ilog = []; iclosed = false; last = empty_obs; tickrun = 0; tickfails = [] }
+let new_pstate () = { ilog = []; iclosed = false; last = empty_obs; tickrun = 0; tickfails = []; wanted = [] }
 
 let nads cfg = List.length cfg.cfg_ads
 let adapter cfg i = cm_ad cfg (nat_of_int i)
@@ -186,6 +187,27 @@ let check_step cfg ps evname id (o : obs) : (string * string) list * bool =
   end else begin
     let before = ps.last and log_before = ps.ilog in
     if evname = "tick" then ps.tickrun <- ps.tickrun + 1 else (ps.tickrun <- 0; ps.tickfails <- []);
+    (* supervision wanted: set by register / restart / peer-gone, cleared by unregister, Close and a
+       start that failed with "do not retry" *)
+    let set_wanted i v = ps.wanted <- (i, v) :: List.remove_assoc i ps.wanted in
+    (match evname with
+     | "reg" | "restart" | "pg" -> set_wanted id true
+     | "unreg" -> set_wanted id false
+     | "close" -> ps.wanted <- []
+     | _ -> ());
+    List.iter (fun (i, k) ->
+        if k <> "close" then begin
+          let w = (try List.assoc i ps.wanted with Not_found -> false) in
+          (* an adapter sharing the address of a wanted one may be re-started in its place *)
+          let shared = List.exists (fun (j, wj) -> wj && j <> i && j < nads cfg && i < nads cfg
+                                                   && (adapter cfg j).ad_addr = (adapter cfg i).ad_addr) ps.wanted in
+          if not w && not shared then
+            add "clamgr.started.unwanted" (Printf.sprintf "Start of adapter %d in step %s although it was unregistered, told not to retry, or the manager was closed" i evname);
+          (* a non-permanent adapter that said "do not retry" must not be started again; a permanent one
+             gets one more start from the next retry pass before it is dropped (code as it is; the
+             property is silent about it) *)
+          if k = "fn" && i < nads cfg && not (adapter cfg i).ad_perm then set_wanted i false
+        end) o.calls;
     check_common cfg ps evname o fails;
     (match evname with
      | "close" -> if not ps.iclosed then check_close cfg ps log_before o fails; ps.iclosed <- true
